@@ -345,7 +345,27 @@ fn judge_inner(rt: &tokio::runtime::Runtime, r: &mut Report, case: &Case) {
 
 fn gen_file(g: &mut Rng, boundary: &str) -> (Vec<u8>, &'static str) {
     let delim = format!("\r\n--{boundary}");
-    match g.below(9) {
+    match g.below(10) {
+        9 => {
+            // a large text file: lines of assorted lengths ending in CRLF / CR / LF, with delimiter look-alikes here and
+            // there, so that false delimiter candidates lie thousands of bytes apart
+            let target = *g.pick(&[5000usize, 9000, 12_000, 20_000, 40_000]);
+            let mut v = Vec::with_capacity(target + 200);
+            while v.len() < target {
+                let l = if g.chance(1, 4) { 4096 + g.usize_below(3000) } else { g.usize_below(400) };
+                v.extend(g.alnum(l).into_bytes());
+                match g.below(6) {
+                    0 => v.extend_from_slice(b"\r"),
+                    1 => v.extend_from_slice(b"\n"),
+                    2 => {
+                        let k = 1 + g.usize_below(delim.len() - 1);
+                        v.extend_from_slice(&delim.as_bytes()[..k]);
+                    }
+                    _ => v.extend_from_slice(b"\r\n"),
+                }
+            }
+            (v, "large-text-with-line-ends")
+        }
         0 => (Vec::new(), "empty"),
         1 => {
             let n = 1 + g.usize_below(40);
@@ -463,6 +483,19 @@ fn gen_form_with(g: &mut Rng, secrets: &HashMap<String, String>, forced_ak: Opti
                     1 => json!(["eq", format!("${n}"), v]),
                     _ => json!(["starts-with", format!("${n}"), &v[..v.len().min(2)]]),
                 });
+            }
+        }
+    }
+    // now and then a form with dozens of fields (distinct names: ignorable ones and user metadata)
+    if g.chance(1, 10) {
+        for i in 0..(25 + g.usize_below(50)) {
+            if g.chance(1, 2) {
+                fields.push((format!("x-ignore-f{i}-{}", g.lower_alnum(3)), g.alnum_upto(0, 8)));
+            } else {
+                let n = format!("x-amz-meta-m{i}{}", g.lower_alnum(2));
+                let v = g.alnum_upto(1, 8);
+                conds.push(json!({n.clone(): v.clone()}));
+                fields.push((n, v));
             }
         }
     }
